@@ -156,7 +156,7 @@ CHECKS["C14"] = dict(
 CHECKS["C06"] = dict(
     engine="symx+z3",
     technique="bounded symbolic execution (symx/z3): the suspension index at which the real extraction is performed is an unbounded z3 Int compared by the driver at every suspension of really running programs; oracle = an unobserved twin run, equality of repeated extractions, referrers / weak references after the results are dropped",
-    text="For 18 (thorough 61) programs of the C01 grammar (generators, coroutines, async generators), every decision script and throw point, every suspension index, 1 or 2 extractions, trickery and referents mode: the observed run produces the same events, suspension offsets and outcome as the unobserved twin; two extractions of the unchanged target are equal; after dropping the results the managers reachable only from the value stack have no new holder (other than CPython's own f_locals cache on the target's frames), the frame's count is unchanged, returned Frame objects and finally the generator itself are collectable.",
+    text="For 12 (thorough 61) programs of the C01 grammar (generators, coroutines, async generators), every decision script and throw point, every suspension index, 1 or 2 extractions, trickery and referents mode: the observed run produces the same events, suspension offsets and outcome as the unobserved twin; two extractions of the unchanged target are equal; after dropping the results the managers reachable only from the value stack have no new holder (other than CPython's own f_locals cache on the target's frames), the frame's count is unchanged, returned Frame objects and finally the generator itself are collectable.",
     note="Possible with this engine because symx does not trace and its proxies never reach the observed objects. LOW SOLVER LEVERAGE. Outside: crashes that would only show many operations later, value-stack objects other than managers, extraction from inside a running frame, CPython 3.9-3.11.",
     ref="DESIGN.md 0a / 5.C06",
 )
